@@ -6,14 +6,15 @@ from .common import find_calls, one_call, call_outcomes, Ensures
 from . import paths as P
 
 EXPLANATION = (
-    "Decides structural necessary conditions of C15 from MIR: (R1) DownloadPolicy::matches evaluated over both variants "
-    "normalises to NothingExcept => exists filter matching, EverythingExcept => forall filters not matching (De Morgan forms "
-    "accepted); FilterKind::matches is key.starts_with(prefix) for Prefix (key as receiver) and equality for Exact; the key is "
-    "the entry's key; (R2) set_download_policy writes only on the document-exists edge, every Ok return passed the write, key = "
-    "namespace argument, value = postcard encoding of the policy argument; get_download_policy reads the same table by the "
-    "namespace argument, decodes the stored bytes and defaults to EverythingExcept([]); the table has no other writer besides "
-    "remove_replica and migrations; (R3) FilterKind's Display and FromStr use the same tag set and the same tag<->variant "
-    "pairing. NOT decided: text round trip for all byte strings (hex/utf8 codecs trusted)."
+    'Decides structural necessary conditions of C15 from MIR: (R1) DownloadPolicy::matches evaluated over both variants '
+    'normalises to NothingExcept => exists filter matching, EverythingExcept => forall filters not matching (De Morgan '
+    'forms accepted); FilterKind::matches is key.starts_with(prefix) for Prefix (key as receiver) and equality for Exact; '
+    "the key is the entry's key; (R2) set_download_policy evaluated on {document exists, not} x {write ok, fails} x {policy"
+    ' equal to whatever it is compared with, not}: Ok only after the write, key = namespace argument, value = postcard '
+    'encoding of the policy argument; get_download_policy reads the same table by the namespace argument, decodes the '
+    'stored bytes and defaults to EverythingExcept([]); the table has no other writer besides remove_replica and '
+    "migrations; (R3) FilterKind's Display and FromStr use the same tag set and the same tag<->variant pairing. NOT "
+    'decided: text round trip for all byte strings (hex/utf8 codecs trusted).'
 )
 ASSUMPTIONS = ["postcard encode/decode are inverse (trusted)", "redb tables are identified by their key/value types"]
 
